@@ -180,6 +180,7 @@ pub fn run_case(a: &Args, tag: &'static str, idx: u64, acc: &mut Acc) {
                 *y = tr(y);
             }
         }
+        crate::panicmon::set_context(format!("tag={} case={} step={} config={} op={} [target {}] (earlier steps: {})", tag, idx, step, cfg.desc(), op.render(), clsig, trace.iter().rev().take(5).rev().cloned().collect::<Vec<_>>().join(" ; ")));
         let mut exprs: Vec<String> = vec![];
         let exprs_cell = std::cell::RefCell::new(&mut exprs);
         let rng_cell = std::cell::RefCell::new(&mut rng);
